@@ -187,7 +187,14 @@ func (r *Reassembler) Feed(f Frame) (pkt Packet, done bool, ec ErrClass) {
 		pkt = r.cur
 		r.open = false
 		r.cur = Packet{}
+		// the lowest acceptable id is the successor of the finished one in (stream, message) order
 		r.wmS, r.wmM = f.Stream, f.Message+1
+		if r.wmM == 0 {
+			r.wmS++
+			if r.wmS == 0 {
+				r.wmS, r.wmM = ^uint64(0), ^uint64(0) // the very last id: nothing lies beyond it
+			}
+		}
 		return pkt, true, ErrNone
 	}
 	return Packet{}, false, ErrNone
